@@ -131,6 +131,17 @@ impl CachedBlocks {
     ]
   }
 
+  /// Drop every cached block in every region. The bank each region is
+  /// currently keyed with stays as it is.
+  pub fn clear(&mut self) {
+    self.rom_low.cache.clear();
+    self.rom_high.cache.clear();
+    self.cart_ram.cache.clear();
+    self.wram_low.cache.clear();
+    self.wram_high.cache.clear();
+    self.high_ram.cache.clear();
+  }
+
   /// Select the ROM bank that lookups and insertions in 0x4000 - 0x7fff
   /// refer to.
   pub fn set_rom_bank(&mut self, bank: u16) {
